@@ -176,7 +176,7 @@ class SocketServer_Threadpool(object):
                     # this can occur if we are asked to shutdown, socket can be invalid then
                     break
                 # socket errors may not lead to a server abort, so we log it and continue
-                err = getattr(x, "errno", x.args[0])
+                err = getattr(x, "errno", None)
                 log.warning("socket error '%s' with errno=%d, shouldn't happen", x, err)
                 continue
             except KeyboardInterrupt:
